@@ -383,13 +383,17 @@ func traceFS(o opts) error {
 				renameIdx = t.idx
 			}
 		}
-		errnos := []string{"EIO", "ENOSPC"}
+		errnos := []string{"EIO", "ENOSPC", "EACCES", "EPERM"}
 		for _, t := range targets {
 			if t.canon == "MARK2" {
 				continue
 			}
 			for _, en := range errnos {
 				if en == "ENOSPC" && !(t.name == "write" || t.name == "openat" || strings.HasPrefix(t.name, "rename")) {
+					continue
+				}
+				// permission errors where a locked-down directory or file could produce them
+				if (en == "EACCES" || en == "EPERM") && !(t.name == "openat" || strings.HasPrefix(t.name, "rename") || strings.HasPrefix(t.name, "fchmod") || t.name == "chmod") {
 					continue
 				}
 				if _, _, err := fsPrepare(dir, op); err != nil {
